@@ -47,8 +47,6 @@ HARNESSES['lexing.hex_4'] = dict(LEXM, harness='hex_4', function='lex_hex_number
 HARNESSES['lexing.hostname_4'] = dict(LEXM, harness='hostname_4', function='lex_hostname_token', bound='every [char] of length 0..=4, fully symbolic chars', timeout=1800, says='found_ok')
 HARNESSES['lexing.url_4'] = dict(LEXM, harness='url_4', function='lex_url', bound='every [char] of length 0..=4, fully symbolic chars', timeout=2400, says='found_ok', covers=False)
 HARNESSES['lexing.email_4'] = dict(LEXM, harness='email_4', function='lex_email_address', bound='every [char] of length 0..=4, fully symbolic chars', timeout=2400, says='found_ok', covers=False)
-HARNESSES['lexing.number_2'] = dict(LEXM, harness='number_2', function='lex_number', bound='every [char] of length 0..=2, fully symbolic chars', timeout=1200, says='found_ok')
-
 JSD = dict(crate='harper-comments', attach='harper-comments/src/comment_parsers/jsdoc.rs', file='jsdoc.rs', modpath='comment_parsers::jsdoc::__verif_kani_jsdoc', kind='bounded', unwind_is_violation=True)
 for _n in (4, 5, 6):
     HARNESSES[f'jsdoc.parse_inline_tag_{_n}'] = dict(JSD, harness=f'parse_inline_tag_{_n}', function='parse_inline_tag', timeout=900,
